@@ -153,9 +153,15 @@ func UpdatePermittedAddrMap(permittedAddrMap map[common.Address]bool) error {
 	if err != nil {
 		return fmt.Errorf("UpdatePermittedAddrMap, peerPoolMap.Deserialization error: %v", err)
 	}
-	// Update permittedAddrMap
+	// Update permittedAddrMap: the addresses of an earlier view are dropped, and only consensus members count
+	for addr := range permittedAddrMap {
+		delete(permittedAddrMap, addr)
+	}
 	publicKeys := make([]keypair.PublicKey, 0)
-	for k := range peerMap.PeerPoolMap {
+	for k, item := range peerMap.PeerPoolMap {
+		if item.Status != node_manager.ConsensusStatus {
+			continue
+		}
 		kb, err := hex.DecodeString(k)
 		if err != nil {
 			return fmt.Errorf("UpdatePermittedAddrMap, DecodeString PeerPoolMap public key error: %v", err)
